@@ -349,7 +349,8 @@ func (e *env) modify(s *session, st *Step) {
 		if op.ElectionId == nil {
 			op.ElectionId = uint128(s.elec)
 		}
-		rec := &opRec{op: op, sess: s.idx}
+		e.opSeq++
+		rec := &opRec{op: op, sess: s.idx, seq: e.opSeq}
 		if old := e.allOps[op.GetId()]; old != nil {
 			e.probe("operation id reused")
 		}
